@@ -429,6 +429,15 @@ func runTable(c *TCase) (st tStats, err error) {
 			} else {
 				st.damageDetected = true
 			}
+			// filtered lookups (the path DB.Get uses) must behave the same way
+			rk, rv, err := tr.Find(kv.K, true, nil)
+			if err == nil {
+				if !bytes.Equal(rk, kv.K) || !bytes.Equal(rv, kv.V) {
+					return st, fmt.Errorf("damaged table (byte %d ^ %#x): Find(%q, filtered) returned %q=%.30q without error", off, c.DamageXor, kv.K, rk, rv)
+				}
+			} else if err == table.ErrNotFound {
+				return st, fmt.Errorf("damaged table (byte %d ^ %#x): Find(%q, filtered) says not found for a stored key instead of reporting corruption", off, c.DamageXor, kv.K)
+			}
 		}
 		it := tr.NewIterator(nil, nil)
 		pos := 0
